@@ -173,6 +173,15 @@ pub fn draw_line<T: Copy>(mut image: NdTensorViewMut<T, 2>, line: Line, value: T
         let img_height: i32 = image.rows().try_into().unwrap();
         let img_width: i32 = image.cols().try_into().unwrap();
 
+        // If the line lies entirely to one side of the image, then no part of
+        // it is visible. Clamping the end points would draw it along the
+        // nearest edge of the image.
+        let (min_x, max_x) = (line.start.x.min(line.end.x), line.start.x.max(line.end.x));
+        let (min_y, max_y) = (line.start.y.min(line.end.y), line.start.y.max(line.end.y));
+        if max_x < 0 || min_x >= img_width || max_y < 0 || min_y >= img_height {
+            return;
+        }
+
         let start = clamp_to_bounds(line.start, img_height, img_width);
         let end = clamp_to_bounds(line.end, img_height, img_width);
         let clamped = Line::from_endpoints(start, end);
@@ -486,9 +495,9 @@ mod tests {
     use rten_testing::TestCases;
 
     use crate::tests::print_grid;
-    use crate::{BoundingRect, Painter, Point, Polygon, Rect};
+    use crate::{BoundingRect, Line, Painter, Point, Polygon, Rect};
 
-    use super::{draw_polygon, stroke_rect};
+    use super::{draw_line, draw_polygon, stroke_rect};
 
     /// Return coordinates of all points in `grid` with a non-zero value.
     fn nonzero_points<T: Default + PartialEq>(grid: NdTensorView<T, 2>) -> Vec<Point> {
@@ -545,6 +554,38 @@ mod tests {
             let poly = Polygon::new(points);
             assert_eq!(poly.fill_iter().next(), None);
         }
+    }
+
+    #[test]
+    fn test_draw_line_outside_image() {
+        let lines = [
+            // Left of image
+            [2, -5, 4, -1],
+            // Right of image
+            [2, 6, 4, 9],
+            // Above image
+            [-3, 1, -1, 4],
+            // Below image
+            [5, 1, 8, 4],
+            // Diagonal
+            [-6, -3, -1, -1],
+        ];
+        for [y0, x0, y1, x1] in lines {
+            let line = Line::from_endpoints(Point::from_yx(y0, x0), Point::from_yx(y1, x1));
+            let mut image = NdTensor::zeros([5, 6]);
+            draw_line(image.view_mut(), line, 1, 1);
+            compare_images(image.view(), NdTensor::zeros([5, 6]).view());
+
+            draw_line(image.view_mut(), line.reverse(), 1, 1);
+            compare_images(image.view(), NdTensor::zeros([5, 6]).view());
+        }
+
+        // Line that is partly inside the image.
+        let line = Line::from_endpoints(Point::from_yx(1, -3), Point::from_yx(1, 3));
+        let mut image = NdTensor::zeros([3, 4]);
+        draw_line(image.view_mut(), line, 1, 1);
+        let expected = image_from_2d_array([[0, 0, 0, 0], [1, 1, 1, 0], [0, 0, 0, 0]]);
+        compare_images(image.view(), expected.view());
     }
 
     #[test]
